@@ -10,6 +10,10 @@ CHECKS = {
          "Exploration: ~10^7 (quick) parses of ~80k generated grammars per configuration are compared (accept/reject and exact token stream) with the reference semantics evaluated on the unoptimized AST; every short string over each grammar's alphabet is enumerated for a subset. Sampled, not a proof.",
          "Trusts harness/pv/src/refsem.rs as the reading of the documented semantics (calibration and ambiguity decisions in DESIGN.md 3.4), pest::unicode::by_name for Unicode property built-ins, and skips cases the prose leaves undefined (empty-stack POP/PEEK) or that diverge. Grammars touched by the lister rewrite are set aside (C05 finding D7).",
          "DESIGN.md section 4, C01"),
+ "C02": ("differential testing of the real #[derive(Parser)] output against the VM: batches of generated grammars compiled into scratch crates at check time, both feature configurations",
+         "Exploration: 16 batches x 70 generated grammars per configuration (quick; 450 thorough), every rule as start rule x ~12 inputs (~40k parse pairs per configuration); token streams, error positions and rule-name sets and panic-ness must agree; generated code that rustc rejects for an accepted grammar is itself a violation.",
+         "Grammars are not shrunk (smallest failing case per batch is reported). Cases on which the reference evaluator is undefined or diverges are not run. Tag-only mismatches are classified; a tag directly on a repetition/optional is open finding D12c.",
+         "DESIGN.md section 4, C02"),
  "C03": ("model-based testing: proptest-generated trees of public ParserState calls run in lockstep with an operational model, state compared after every operation through a cfg snapshot hook; two builds (memchr on/off)",
          "Exploration: ~1.5M programs x 6 inputs per build (quick) plus every skip_until set of <= 3 short strings on every short input; position, token queue, stack, look-ahead and atomicity are compared after each of the program's operations, and the final pest::state result at the end.",
          "Trusts the model in harness/pv/src/c03.rs (where rustdoc is silent it mirrors the code; listed in the evidence assumptions). The no-memchr build is a separate cargo package/target dir so feature unification cannot re-enable memchr.",
